@@ -14,20 +14,6 @@ def hexOf (s : String) : String :=
   let d := "0123456789abcdef".toList
   String.ofList (s.toUTF8.toList.flatMap (fun b => [d[b.toNat / 16]!, d[b.toNat % 16]!])) ++ "."
 
-structure Case where
-  rule : String
-  arith : String
-  p : Nat
-  g : Nat
-  intq : Bool
-  batch : String      -- none | zero | safe
-  omega : Nat
-  seats : Nat
-  nballots : Nat
-  cands : List (Nat × Nat × Bool × Bool)     -- cid, tie, withdrawn, undeclared
-  ballots : List (Nat × List Nat)
-  ballotsEq : List (Nat × List (List Nat))
-
 def parseCands : Nat → List String → Option (List (Nat × Nat × Bool × Bool) × List String)
   | 0, r => some ([], r)
   | n+1, a :: b :: c :: d :: r => do
@@ -66,30 +52,6 @@ def parseCase (toks : List String) : Option Case := do
            seats := ← seats.toNat?, nballots := ← nb.toNat?, cands, ballots := bs, ballotsEq := qs }
   | _ => none
 
-def methodOf (rule : String) : Method :=
-  if rule == "qpq" then .qpq else if rule == "meek" || rule == "warren" || rule == "meek-prf" then .meek else .wigm
-
-def initState {α} (A : Arith α) (c : Case) : St α :=
-  { method := methodOf c.rule, seats := c.seats, nballots := c.nballots
-    cands := c.cands.map (fun (cid, tie, wd, ud) =>
-      { cid, order := cid, tie, undeclared := ud, st := if wd then .withdrawn else .hopeful, pending := false,
-        vote := A.zero, kf := none, quotient := none, tc := A.zero })
-    ballots := c.ballots.map (fun (m, r) => { mult := m, rank := r, idx := 0, w := A.one, residual := A.zero })
-    ballotsEq := c.ballotsEq.map (fun (m, r) => { mult := m, rank := r, residual := A.zero })
-    quota := A.zero, surplus := A.zero, votes := A.zero, exhausted := A.zero, residual := A.zero
-    round := 0, rounds := [], acts := [], crash := none }
-
-/-- Election.__init__ logs one line per candidate before the count starts -/
-def withAddLogs {α} (s : St α) : St α :=
-  s.cands.foldl (fun acc c =>
-    acc.logMsg (if c.st == .withdrawn then "Add withdrawn" else if c.undeclared then "Add undeclared" else "Add eligible")
-      [c.cid]) s
-
-def ctxOf (c : Case) : Ctx :=
-  { rule := c.rule, method := methodOf c.rule, seats := c.seats, nballots := c.nballots
-    electable := (c.cands.filter (fun (_, _, wd, ud) => !wd && !(c.rule == "mpls" && ud))).map (·.1)
-    isRational := c.arith == "rational" }
-
 def showOpt {α} (A : Arith α) : Option α → String
   | some v => ":" ++ A.raw v
   | none => ""
@@ -104,21 +66,6 @@ def showAct {α} (A : Arith α) (a : Act α) : String :=
     ++ " W " ++ " ".intercalate (a.ws.map (fun (i, w) => s!"{i}:{A.raw w}"))
 
 inductive Out (α : Type) | fuel | crash (k : String) | ok (acts : List (Act α))
-
-def runRuleSt {α} (A : Arith α) (c : Case) : Option (St α) :=
-  match c.rule with
-  | "wigm" => wigmCount A { integerQuota := c.intq, batchZero := c.batch == "zero" } (initState A c)
-  | "wigm-prf" => wigmCount A { prf := true } (initState A c)
-  | "wigm-prf-batch" => wigmCount A { prf := true, prfBatch := true } (initState A c)
-  | "scotland" => scotCount A (initState A c)
-  | "cfer" => cferCount A false (initState A c)
-  | "cfer-batch" => cferCount A true (initState A c)
-  | "mpls" => mplsCount A (initState A c)
-  | "meek" => meekCount A { warren := false, omega10 := c.omega, batchSafe := c.batch == "safe" } 100000 (initState A c)
-  | "warren" => meekCount A { warren := true, omega10 := c.omega, batchSafe := c.batch == "safe" } 100000 (initState A c)
-  | "meek-prf" => prfCount A 100000 (initState A c)
-  | "qpq" => qpqCount A (initState A c)
-  | _ => none
 
 def finish {α} (A : Arith α) (r : Option (St α)) : Out α :=
   match r with
@@ -216,21 +163,6 @@ def evalWith {α} (A : Arith α) (units : Int → α) (pv : String → Option α
 def parseRat (s : String) : Option Rat :=
   match s.splitOn "/" with
   | [n, d] => do some (mkRat (← n.toInt?) (← d.toNat?))
-  | _ => none
-
-def runRuleSt' {α} (A : Arith α) (c : Case) (s0 : St α) : Option (St α) :=
-  match c.rule with
-  | "wigm" => wigmCount A { integerQuota := c.intq, batchZero := c.batch == "zero" } s0
-  | "wigm-prf" => wigmCount A { prf := true } s0
-  | "wigm-prf-batch" => wigmCount A { prf := true, prfBatch := true } s0
-  | "scotland" => scotCount A s0
-  | "cfer" => cferCount A false s0
-  | "cfer-batch" => cferCount A true s0
-  | "mpls" => mplsCount A s0
-  | "meek" => meekCount A { warren := false, omega10 := c.omega, batchSafe := c.batch == "safe" } 100000 s0
-  | "warren" => meekCount A { warren := true, omega10 := c.omega, batchSafe := c.batch == "safe" } 100000 s0
-  | "meek-prf" => prfCount A 100000 s0
-  | "qpq" => qpqCount A s0
   | _ => none
 
 def dumpWith {α} (A : Arith α) (strV : α → String) (c : Case) : String :=
